@@ -98,8 +98,11 @@ def parse_mir(text):
     funcs = {}
     lines = text.split('\n')
     i, n = 0, len(lines)
+    ctfe = False
     while i < n:
         line = lines[i]
+        if line.startswith('// MIR FOR CTFE'):
+            ctfe = True
         if not line or line[0] in ' }/':
             i += 1; continue
         mo = _ONE.match(line)
@@ -173,7 +176,10 @@ def parse_mir(text):
         if 0 not in locs and ret is not None:
             locs[0] = ret
         h = hashlib.sha1('\n'.join(lines[i:j + 1]).encode()).hexdigest()[:12]
-        funcs.setdefault(name, []).append(Func(name, kind, line, args, ret, locs, blocks, h))
+        if ctfe and kind == 'fn':
+            ctfe = False        # the const-eval duplicate of a `const fn`: the runtime body precedes it
+        else:
+            funcs.setdefault(name, []).append(Func(name, kind, line, args, ret, locs, blocks, h))
         i = j + 1
     return funcs
 
